@@ -183,7 +183,8 @@ fn adversarial<const N: usize>(state: &State) -> MoveSet {
     let mut i = 0;
     while i < N {
         let m = any_mv();
-        kani::assume(fide_pseudo(&p, m));
+        // legal moves only: the real generator then lists them too, so a counterexample replays natively
+        kani::assume(legal_ref(&p, m));
         if i == 1 {
             // the second move shares the squares of the first (the realistic source of ambiguity: the four
             // promotions of one pawn step); keeps the two-move query within memory
